@@ -1,5 +1,143 @@
 """Property table: worker channels (C34) and StatusCondition / WaitSet (C32)."""
+import os
+import re
+
+from .. import common
 from ..props import prop
 
-prop("C34", level="other", explanation="wip", bounds="wip", outside="wip")
-prop("C32", level="other", explanation="wip", bounds="wip", outside="wip")
+
+def _repo_file(rel):
+    root = getattr(common, "REPO", "/repo")
+    with open(os.path.join(root, rel), errors="replace") as f:
+        return f.read()
+
+
+def guard_wait_set_order():
+    """The C32 waiter steps G, R, P mirror WaitSetAsync::wait: check every condition, then create the
+    notification channel and register a clone of its sender with every condition, then await the receiver.
+    If wait_set.rs no longer has that shape the harness does not mirror it any more (exit 3)."""
+    try:
+        src = _repo_file("dds/src/dds_async/wait_set.rs")
+    except OSError as e:
+        return False, "cannot read dds/src/dds_async/wait_set.rs: %s" % e
+    m = re.search(r"pub async fn wait\(&self\)(.*?)\n    /// Async version of \[`attach_condition`\]", src, flags=re.S)
+    if not m:
+        return False, "WaitSetAsync::wait not found in wait_set.rs"
+    body = m.group(1)
+    marks = ["condition.get_trigger_value().await?", "return Ok(trigger_conditions)", "= notification();",
+             ".register_notification(notification_sender.clone())", "notification_receiver.await?"]
+    pos = -1
+    for k in marks:
+        p = body.find(k, pos + 1)
+        if p < 0:
+            return False, "WaitSetAsync::wait: expected `%s` after the previous phase (check-all / register-all / await order changed)" % k
+        pos = p
+    return True, "WaitSetAsync::wait has the check-all / register-all / await shape mirrored by the waiter steps G, R, P"
+
+
+prop(
+    "C34",
+    ready=True,
+    level="other",
+    explanation=(
+        "Every operation of the three channels (dds/src/dcps/channels/oneshot.rs, mpsc.rs, notification.rs) is one "
+        "critical_section::with block, so a thread interleaving of channel users is a sequence of these atomic operations. "
+        "Kani/CBMC executes the REAL channel objects under a SYMBOLIC SCHEDULE: k steps, at each step the operation (send / "
+        "notify, clone sender, drop sender, poll receiver, drop receiver), the sender slot, the value and the poll waker are "
+        "kani::any(); operations on handles that no longer exist are no-ops, so all shorter schedules are included. Oracle = a "
+        "few integers of shadow state (sent-but-not-received values, live-sender count, 'receiver parked on waker A/B', pending "
+        "notifications) and counting wakers built with alloc::task::Wake: (a) oneshot: the value is delivered exactly once and "
+        "unchanged, Ready(Err) iff the sender was dropped without sending, Pending iff the sender is alive and nothing was sent; "
+        "(b) mpsc: a poll is Ready(Some) iff more elements were sent than received (each exactly once, also after the senders "
+        "are gone), never Pending while an element is queued, Ready(None) only if nothing is queued and no sender is left; FIFO "
+        "order of three distinguishable u8 values on one fixed operation sequence; (c) notification: a poll after >= 1 "
+        "unconsumed notify is Ready(Ok) (n notifies before a poll may coalesce into between 1 and n wake-ups), never Ready(Ok) "
+        "without a notify, Ready(Err) iff nothing is pending and every sender clone is dropped (sender_count bookkeeping over "
+        "clone/drop); (d) all three: a send / notify / drop of the last sender while the receiver is parked increases the wake "
+        "counter of the waker passed to the most recent Pending poll (never Pending without a registered waker), and sender "
+        "operations after the receiver is gone do not panic. The mpsc obligations about the state 'every sender dropped and queue "
+        "empty' are a recorded genuine finding (KF-C34-1: no disconnection transition exists): the __known harness is restricted "
+        "to exactly that trigger and fails as recorded, the __rest harness assumes its negation and passes."),
+    bounds="quick: oneshot k = 4 operations with 2 wakers; notification k = 4, <= 2 sender clones, 1 waker; mpsc k = 4, <= 2 sender "
+           "clones, 1 waker, element type (); mpsc FIFO: one 7-operation sequence with 3 symbolic u8 values; KF-C34-1 trigger after "
+           "any 2-operation prefix. thorough: oneshot k = 5 (2 wakers) and k = 6 (1 waker); notification k = 4 (2 wakers) and k = 5 "
+           "(3 sender slots); mpsc k = 4 (2 wakers) and k = 5 (3 sender slots); KF-C34-1 trigger after any 3-operation prefix. "
+           "1 receiver everywhere.",
+    outside="schedules longer than the stated k; more than 3 sender clones; the soundness of critical_section itself and true "
+            "parallel execution inside a critical section (trusted base: acquire/release are stubbed by no-ops); the two critical "
+            "sections of OneshotSender::send(self) (store+wake, then Drop of self) and the two steps of NotificationSender::clone are "
+            "executed back to back; mpsc with a non-zero-sized element type under a symbolic schedule (measured: > 12 GB for 3 steps "
+            "and also for an 81-path tree of {send, poll}^4, because CBMC explores VecDeque::grow with symbolic-size copies at every "
+            "send) - value identity and FIFO order are therefore checked on one operation sequence only and otherwise rest on "
+            "VecDeque::push_back/pop_front of the standard library; destruction of the shared channel state (Arc::drop_slow, "
+            "deallocation: AtomicUsize::fetch_sub is stubbed to never report the last reference); the executor that re-polls a woken "
+            "task (C42, not applicable); KF-C34-1 itself (reported, not claimed).",
+    level_text="Bounded symbolic model checking (Kani 0.68 / CBMC 6.11) of the real channel code over ALL schedules of k <= 4 (quick) / "
+               "k <= 6 (thorough) atomic operations; reported as level 'other' (bounded).",
+    level_note="trusted: Kani/CBMC; the harness oracles in harness/incrate/c34_channels.rs; three stubs in support_cs.rs "
+               "(critical_section acquire/release = no-ops; AtomicUsize::fetch_sub never reports the last Arc reference; for the FIFO "
+               "harness alloc::raw_vec::min_non_zero_cap panics = buffer growth asserted unreachable). One known finding (KF-C34-1, "
+               "mpsc never reports disconnection) is printed as KNOWN-FINDING on every run; nothing else is suppressed.",
+    technique="Kani/CBMC symbolic schedule of k atomic channel operations on the real oneshot / mpsc / notification objects with a "
+              "shadow-model oracle and counting wakers",
+    assumptions=[
+        "an interleaving of channel users = a sequence of whole critical sections (critical_section::with is atomic)",
+        "allocation never fails (Kani default)",
+    ],
+    timeout={"quick": 600, "thorough": 1500},
+    mem_gb=10,
+)
+
+prop(
+    "C32",
+    ready=True,
+    level="other",
+    explanation=(
+        "Kani/CBMC executes the REAL DcpsStatusCondition (dds/src/dcps/status_condition.rs) together with the REAL notification() "
+        "channel that WaitSetAsync::wait (dds/src/dds_async/wait_set.rs) registers with it. In the running system every access to a "
+        "status condition is one mail handled by the participant actor (status_condition_methods.rs looks the entity up and calls "
+        "the same methods), so an interleaving of status changes, set_enabled_statuses calls and wait calls is a sequence of the "
+        "calls add_communication_state(s), remove_communication_state(s), set_enabled_statuses(m) (worker) and G = "
+        "get_trigger_value(), R = register_notification(sender.clone()), P = poll of the NotificationReceiver (waiter; the "
+        "check-all / register-all / await order of WaitSetAsync::wait is mirrored by these steps, the async mail/reply glue is not "
+        "executed; a source guard pins the order in wait_set.rs). Oracle = shadow sets 'changed' and 'enabled' over 3 status kinds. "
+        "(1) Trigger value: for every schedule of k worker operations, after every step get_trigger_value() is true exactly when an "
+        "enabled status has changed (including a status that changed while disabled and is enabled later). (2) No lost wake-up: one "
+        "complete wait call G, R, P, P on a condition with an arbitrary enabled mask, with symbolic worker operations in the slots "
+        "before G, between G and R, between R and the first poll, between the two polls: wait returns immediately if the trigger "
+        "value is true at G, and a poll is never Pending while the trigger value is true (covers the status change between check "
+        "and register, and the change after the waiter parked). The case 'set_enabled_statuses makes the trigger value true while a "
+        "waiter is registered' is a recorded genuine finding (KF-C32-1: set_enabled_statuses does not notify registered waiters, "
+        "contradicting 'including through enabling a status that already changed'): the __known harness is restricted to exactly "
+        "that trigger and fails as recorded, the __rest harnesses assume its negation and pass."),
+    bounds="1 condition, 1 waiter (one wait call), 3 status kinds (mask bits 0, 8, 12) and all 8 masks over them; trigger value: k = 4 "
+           "(quick) / 5 (thorough) worker operations from the default condition; wake-ups: 4 waiter steps + symbolic initial mask + 1 "
+           "symbolic worker operation in one of the four slots (quick, all four placements) / 2 worker operations in two slots "
+           "(thorough: placements 1001, 0101, 1100, 0011); unwind 14 (13-iteration mask loop of DcpsStatusCondition::default()).",
+    outside="a free symbolic schedule of worker and waiter steps (measured: 3 free steps, and one worker slot in each of the four gaps, "
+            "both exceed 11 GB / 600 s: once the length of registered_notifications is symbolic CBMC unrolls the drain loop of "
+            "add_communication_state 13 times, the unwind bound forced by the 13-status loop of Default) - hence the slot-structured "
+            "schedules; more than 2 worker operations during one wait call; two or more concurrent waiters or wait sets with several "
+            "conditions (the original sender kept alive by wait() and the per-condition clones are modelled for one condition); the "
+            "async glue of WaitSetAsync::wait / StatusConditionAsync (mail to the participant actor, oneshot reply) and the lookup "
+            "code of status_condition_methods.rs, which are mirrored, not executed; the timeout of the blocking WaitSet::wait "
+            "(block_timeout, executor: C42 not applicable); that the woken task is actually re-polled ('parked waiter is woken' is "
+            "established as 'notify was called' here plus C34's 'notify wakes the most recent waker'); status kinds other than the "
+            "three chosen (the code treats all 13 kinds uniformly through status_kind_bit); KF-C32-1 itself (reported, not claimed).",
+    level_text="Bounded symbolic model checking (Kani 0.68 / CBMC 6.11) of the real status condition and notification channel; reported "
+               "as level 'other' (bounded schedules).",
+    level_note="trusted: Kani/CBMC; the harness oracle in harness/incrate/c32_status_condition.rs; stubs in support_cs.rs "
+               "(critical_section acquire/release = no-ops; AtomicUsize::fetch_sub never reports the last Arc reference; "
+               "alloc::raw_vec::min_non_zero_cap = faithful copy that asserts Vec growth unreachable after a concrete warm-up). One "
+               "known finding (KF-C32-1, enabling an already changed status does not wake a registered waiter) is printed as "
+               "KNOWN-FINDING on every run; nothing else is suppressed.",
+    technique="Kani/CBMC symbolic (slot-structured) schedules of status-condition operations against a mirrored WaitSetAsync::wait, "
+              "shadow-model oracle",
+    assumptions=[
+        "every access to a status condition is one atomic step (one mail of the participant actor)",
+        "allocation never fails (Kani default)",
+    ],
+    guards=[guard_wait_set_order],
+    timeout={"quick": 600, "thorough": 1500},
+    mem_gb=12,
+)
